@@ -96,6 +96,7 @@ def run_history(seed, ops, P):
 
 def body_for(seed, ops):
     weak_checked = []
+    reuse_checked = []
 
     def body(P):
         Q = {k: operator.index(v) for k, v in P.items()}  # one concretisation shared by the three executions
@@ -163,6 +164,23 @@ def body_for(seed, ops):
                 if len(j.entries) != 0 and depth > 1:
                     # outer journals are shadowed by the inner one while it is active: they may only hold what ran outside
                     pass
+        # a Journal OBJECT used twice: alone first, then nested inside another journal (once per case)
+        if not problems and all(Q[f"{k}0"] == lo for k, (lo, _hi) in RANGES.items()) and Q["mode"] == 0:   # one designated path per case
+            jr = Journal()
+            with jr:
+                ir.Value(name="reuse_1")
+            if identity_table() != pristine:
+                problems.append("classes not restored after leaving a journal that will be re-used")
+            with Journal():
+                at_entry = identity_table()
+                with jr:
+                    ir.Value(name="reuse_2")
+                if identity_table() != at_entry:
+                    diff = [k for k, v in identity_table().items() if at_entry[k] != v]
+                    problems.append(f"after leaving a RE-USED journal nested in another one {len(diff)} attributes are not the objects they were at its entry: {diff[:3]}")
+            if identity_table() != pristine:
+                problems.append("classes not restored after a re-used journal was nested in another one")
+                _wrappers.restore_ir_classes(_wrappers_original_cache)
         # weak references only (checked once per case: gc.collect is slow)
         if inner is not None and not problems and not weak_checked:
             weak_checked.append(1)
